@@ -387,7 +387,7 @@ def run(chk):
         nm = t.func.node.name
         if nm not in ("__mul__", "_mul_precompute", "__eq__") or t.kind != "zero" or "Y" not in t.roles or "X" in t.roles or "Z" in t.roles:
             continue
-        if identity_outcome(t.stmt, t.node):
+        if identity_outcome(t):
             hit.setdefault(nm, []).append(t.node.lineno)
     if hit:
         chk.ob("R06.4", "subgroup test path Public_key.__init__ -> PointJacobi.__rmul__/__mul__ -> == INFINITY uses an exact identity predicate", False, loc="ecdsa:Public_key.__init__",
